@@ -165,7 +165,7 @@ def gen_atom(rng):
     if c <= 5:
         return rng.bytes(2 + rng.below(6))
     if c == 6:
-        return rng.bytes(32)
+        return rng.bytes([32, 20, 19, 21, 33][rng.below(5)])
     if c == 7:
         return rng.bytes(60 + rng.below(10))
     return rng.bytes(1 + rng.below(3))
@@ -175,7 +175,20 @@ def gen_tree(rng, max_leaves):
     leaves = 1 + rng.below(max_leaves)
     pool = [gen_atom(rng) for _ in range(1 + rng.below(3))]
     forest = []
+    near = rng.below(3) * 15  # percent of atoms that differ from an earlier one in one byte
     for _ in range(leaves):
+        if forest and rng.below(100) < near:
+            b = bytearray(forest[rng.below(len(forest))])
+            if not b:
+                b = bytearray([rng.below(256)])
+            elif rng.chance(1, 2):
+                b[-1] ^= 1 << rng.below(8)
+            elif rng.chance(1, 2):
+                b[rng.below(len(b))] ^= 1 << rng.below(8)
+            else:
+                b.append(rng.below(256))
+            forest.append(bytes(b))
+            continue
         forest.append(pool[rng.below(len(pool))] if rng.chance(2, 5) else gen_atom(rng))
     shared = []
     shape = rng.below(3)
